@@ -60,7 +60,7 @@ ALPHABET = {
     "representations": list(REPS),
     "element density": ["0", "1e-3 n_e", "3 n_e (exceeds n_e: warning branch)"],
     "given species for neutrality": list(SPECIES),
-    "species containers": ["dict {charge: profile}", "ndarray (charge, *shape)"],
+    "species containers": ["dict {charge: profile} filled in ascending and in descending charge order", "ndarray (charge, *shape)"],
     "entry points": list(CORE) + list(WRAPPERS),
 }
 BOUND = {"quick": "complete lattice A for Z in {1,2,6,10,18}", "thorough": "complete lattices A and B for Z = 1..18"}
@@ -82,7 +82,7 @@ ASSUMPTIONS = [
 REQUIRED_CLASSES = (["entry:" + e for e in CORE + WRAPPERS] + ["repr:scalar"] + ["repr:" + r for r in REPS]
                     + ["donor:none", "donor:zero", "donor:pos", "donor-distinguishable", "donor-indistinguishable"]
                     + ["family:" + f for f in FAMILIES] + ["species:" + s for s in SPECIES] + ["lattice:A"]
-                    + ["species-container:dict", "species-container:ndarray", "nel:zero", "nel:below-ne", "nel:above-ne",
+                    + ["species-container:dict", "species-container:dict-desc", "species-container:ndarray", "nel:zero", "nel:below-ne", "nel:above-ne",
                        "scalar-type:float", "scalar-type:float64", "scalar-type:int-te", "between-nodes", "outside-lcfs"])
 BUDGET_S = {"quick": 1200, "thorough": 3000}   # wall-clock caps only; CPU need: ~250 s quick, ~4500 s thorough (16 idle cores: ~20 s / ~5 min)
 CHUNK = 1
@@ -550,9 +550,10 @@ def species_arg(sp, container, kind, k0=None):
     out = []
     for s in sp:
         nq = len(s[0])
-        if container == "dict":
+        if container in ("dict", "dict-desc"):
             d = {}
-            for q in range(nq):
+            # 'dict-desc': the same mapping built from the bare nucleus down (insertion order is not part of a dict's meaning)
+            for q in (range(nq) if container == "dict" else range(nq - 1, -1, -1)):
                 vals = [s[k][q] for k in range(len(s))]
                 if kind == "scalar":
                     d[q] = np.array([vals[k0]])         # what from_elementdensity returns for scalar input
@@ -658,7 +659,7 @@ def group_scalar(ctx):
     for scls in SPECIES:
         sp, qs = species_values(ctx, scls)
         ctx.classes.append("species:" + scls)
-        for container in ("dict", "ndarray"):
+        for container in ("dict", "dict-desc", "ndarray"):
             ctx.classes.append("species-container:" + container)
             res = scalar_baseline(ctx, "match_plasma_neutrality", ks, sp=sp, container=container)
             for k in ks:
@@ -722,7 +723,8 @@ def group_repr(ctx, entry):
     elif entry == "from_elementdensity":
         variants = [(("below-ne", 1e-3), None, None, "dict")]
     else:
-        variants = [(None, "two", species_values(ctx, "two"), "dict"), (None, "one", species_values(ctx, "one"), "ndarray")]
+        variants = [(None, "two", species_values(ctx, "two"), "dict"), (None, "one", species_values(ctx, "one"), "ndarray"),
+                    (None, "two", species_values(ctx, "two"), "dict-desc")]
     for nel, scls, spq, container in variants:
         sp, qs = spq if spq else (None, None)
         if scls:
@@ -773,6 +775,46 @@ def group_repr(ctx, entry):
                 if base[k] is not None:
                     agree(ctx, "%s:repr=%s:differs-from-scalar-call" % (entry, rep),
                           "representation gives another result than the scalar call at " + ctx.ptdesc(p), col, base[k])
+    _flat_plasma_varying_donor(ctx, entry)
+
+
+def _flat_plasma_varying_donor(ctx, entry):
+    """A profile whose points share bit-identical (n_e, T_e) but differ in the donor density (a flat core with a decaying
+    neutral profile): every point must equal the scalar call with its own donor density."""
+    if ctx.donor is None or entry == "match_plasma_neutrality":
+        return
+    ib, np = _G["ib"], _G["np"]
+    p0 = ctx.pts[K0]
+    if not p0["nd"] > 0:
+        return
+    nds = [p0["nd"], 0.1 * p0["nd"], 7.0 * p0["nd"], 0.0]
+    ne, te = np.full(len(nds), p0["ne"]), np.full(len(nds), p0["te"])
+    kw = ctx.donor_kw(np.array(nds))
+    if entry == "fractional_abundance":
+        r, err = ctx.call(ib.fractional_abundance, ctx.ad, ctx.el, ne, te, **kw)
+    else:
+        r, err = ctx.call(ib.from_elementdensity, ctx.ad, ctx.el, 1e-3 * ne, ne, te, **kw)
+    ctx.classes.append("repr:flat-plasma-varying-donor")
+    if err is not None:
+        ctx.failed(entry, "flat-plasma-varying-donor", err, "array call with constant n_e, T_e and a varying donor density")
+        return
+    prof = _profile(ctx, entry, "flat-plasma-varying-donor", r, (len(nds),))
+    if prof is None:
+        return
+    for i, nd in enumerate(nds):
+        kw1 = ctx.donor_kw(nd)
+        if entry == "fractional_abundance":
+            r1, e1 = ctx.call(ib.fractional_abundance, ctx.ad, ctx.el, p0["ne"], p0["te"], **kw1)
+        else:
+            r1, e1 = ctx.call(ib.from_elementdensity, ctx.ad, ctx.el, 1e-3 * p0["ne"], p0["ne"], p0["te"], **kw1)
+        if e1 is not None:
+            continue
+        b1 = _profile(ctx, entry, "scalar", r1, (1,))
+        if b1 is None:
+            continue
+        agree(ctx, "%s:repr=flat-plasma-varying-donor:differs-from-scalar-call" % entry,
+              "point %d of a profile with constant n_e, T_e and donor densities %s differs from the scalar call with its own donor density" % (i, nds),
+              prof[:, i], b1[:, 0])
 
 
 def _core_profiles(ctx, kind, shape, nel_vals, sp, qs):
